@@ -54,6 +54,13 @@ func c17Table(inputs ...string) string {
 				continue
 			}
 			done[s] = true
+			// rows are keyed by the code points Go's range yields: byte strings that differ only in how an
+			// ill-formed sequence is spelled (a raw 0xE9 and a real U+FFFD) share a key -- first one wins
+			if hk := vh.HexRunes(s); t.seen[hk] {
+				continue
+			} else {
+				t.seen[hk] = true
+			}
 			n := norm.NFC.String(s)
 			l := strings.ToLower(s)
 			u, uerr := idna.ToUnicode(s)
@@ -106,12 +113,34 @@ func res(s string, err error) string {
 
 // ---- one op against the real code ----
 
-func c17Op(out *vh.Out, fn string, args ...string) {
+// c17Call is the op-line spelling of a call: code points when every argument is well-formed UTF-8,
+// otherwise "b" + the arguments as hex BYTES (the model decodes them the way Go's range does)
+func c17Call(fn string, args ...string) string {
+	valid := true
+	for _, a := range args {
+		if !utf8.ValidString(a) {
+			valid = false
+		}
+	}
 	hex := make([]string, len(args))
 	for i, a := range args {
-		hex[i] = vh.HexRunes(a)
+		if valid {
+			hex[i] = vh.HexRunes(a)
+		} else {
+			hex[i] = vh.HexBytes([]byte(a))
+		}
 	}
-	call := "C17 " + fn + " " + strings.Join(hex, " ")
+	if valid {
+		return "C17 " + fn + " " + strings.Join(hex, " ")
+	}
+	return "C17 b " + fn + " " + strings.Join(hex, " ")
+}
+
+func c17Op(out *vh.Out, fn string, args ...string) {
+	call := c17Call(fn, args...)
+	if strings.HasPrefix(call, "C17 b ") {
+		out.Stat("op.bytes." + fn)
+	}
 	var obs string
 	needTab := true
 	switch fn {
@@ -950,18 +979,29 @@ func c17CheckSpelling(out *vh.Out, s string) {
 
 func c17Strings(out *vh.Out, s, t string) {
 	// Equal <=> same key; symmetry
-	ks, _ := ForLookup(s)
-	kt, _ := ForLookup(t)
-	op := "C17 equal " + vh.HexRunes(s) + " " + vh.HexRunes(t)
+	ks, es := ForLookup(s)
+	kt, et := ForLookup(t)
+	op := c17Call("equal", s, t)
 	if Equal(s, t) != (ks == kt) {
-		out.Violation("C17/equal-vs-key", op, fmt.Sprintf("Equal=%v keys %q %q", Equal(s, t), ks, kt))
+		// the signature says on which branch of ForLookup the two disagree: both keys computed, a domain that
+		// cannot be normalised (the key is the lower-cased whole string), an address that does not split
+		sig := "C17/equal-vs-key"
+		if es != nil || et != nil {
+			sig = "C17/equal-vs-key-undecodable-domain"
+			_, _, e1 := Split(s)
+			_, _, e2 := Split(t)
+			if (es != nil && e1 != nil) || (et != nil && e2 != nil) {
+				sig = "C17/equal-vs-key-malformed"
+			}
+		}
+		out.Violation(sig, op, fmt.Sprintf("Equal=%v keys %q,%v %q,%v", Equal(s, t), ks, es, kt, et))
 	}
 	if Equal(s, t) != Equal(t, s) {
 		out.Violation("C17/equal-not-symmetric", op, "")
 	}
 	ds, _ := dns.ForLookup(s)
 	dt, _ := dns.ForLookup(t)
-	dop := "C17 dnsequal " + vh.HexRunes(s) + " " + vh.HexRunes(t)
+	dop := c17Call("dnsequal", s, t)
 	if dns.Equal(s, t) != (ds == dt) {
 		out.Violation("C17/dns-equal-vs-key", dop, fmt.Sprintf("dns.Equal=%v keys %q %q", dns.Equal(s, t), ds, dt))
 	}
@@ -974,25 +1014,42 @@ func c17Strings(out *vh.Out, s, t string) {
 	if m, d := c17SplitAt(s); d != "" {
 		c17CheckSpelling(out, m)
 	}
-	// IsASCII
+	// IsASCII: true exactly when every character is below U+0080 -- on Go's reading of a string (range
+	// yields U+FFFD for every byte that is not part of a well-formed sequence) that is: every BYTE is below
+	// 0x80. Evaluated on the bytes, for every string of the run, well-formed or not.
+	all := true
+	for i := 0; i < len(s); i++ {
+		if s[i] >= 0x80 {
+			all = false
+		}
+	}
 	if utf8.ValidString(s) {
-		all := true
-		for _, ch := range s {
-			if ch >= 0x80 {
-				all = false
+		out.Stat(fmt.Sprintf("isascii.wellformed.%v", all))
+	} else {
+		out.Stat("isascii.illformed")
+	}
+	if IsASCII(s) != all {
+		out.Violation("C17/isascii", c17Call("isascii", s), fmt.Sprintf("IsASCII(%q)=%v", s, IsASCII(s)))
+	}
+	// ToASCII: whatever it returns without an error is ASCII (a non-ASCII local part -- ill-formed bytes
+	// included -- is refused, the domain comes back in A-labels)
+	if as, err := ToASCII(s); err == nil {
+		out.Stat("toascii.ok")
+		for i := 0; i < len(as); i++ {
+			if as[i] >= 0x80 {
+				out.Violation("C17/toascii-not-ascii", c17Call("toascii", s), fmt.Sprintf("ToASCII(%q)=%q", s, as))
+				break
 			}
 		}
-		if IsASCII(s) != all {
-			out.Violation("C17/isascii", "C17 isascii "+vh.HexRunes(s), fmt.Sprintf("IsASCII(%q)=%v", s, IsASCII(s)))
-		}
-		// ToASCII must not accept a non-ASCII local part
-		if as, err := ToASCII(s); err == nil {
-			for _, ch := range as {
-				if ch >= 0x80 {
-					out.Violation("C17/toascii-not-ascii", "C17 toascii "+vh.HexRunes(s), fmt.Sprintf("ToASCII(%q)=%q", s, as))
-					break
-				}
-			}
+	} else if m, _ := c17SplitAt(s); !all && strings.IndexFunc(m, func(ch rune) bool { return ch >= 0x80 }) >= 0 {
+		out.Stat("toascii.refused-non-ascii-local")
+	}
+	// ToUnicode keeps the local part (bytes as written) and never turns an ASCII-only address into a non-ASCII
+	// one without an A-label in it
+	if us, err := ToUnicode(s); err == nil {
+		m, d := c17SplitAt(s)
+		if d != "" && !strings.HasPrefix(us, m+"@") {
+			out.Violation("C17/tounicode-changes-local-part", c17Call("tounicode", s), fmt.Sprintf("ToUnicode(%q)=%q", s, us))
 		}
 	}
 	// quote / unquote
@@ -1007,6 +1064,311 @@ func c17Strings(out *vh.Out, s, t string) {
 			}
 		}
 	}
+}
+
+// ---- pairs for the oracle "Equal <=> the two ForLookup keys are equal": every domain class x every
+// local-part equivalence row (round 8) ----
+
+// rows of local parts that are "the same" under some notion of equivalence (canonical, letter case, width,
+// case folding, quoting); whether two members share a key is for the code to decide -- the oracle only says
+// that Equal and key equality agree on it
+var c17LocalRows = [][]string{
+	{"É", "É", "é", "é"},
+	{"rené", "RENÉ", "rené", "RENÉ", "René"},
+	{"öl", "öl", "ÖL", "ÖL"},
+	{"ａ", "a", "Ａ", "A"},
+	{"İ", "i̇", "İ", "i", "ı", "I"},
+	{"xİy", "xi̇y", "XİY", "xiy"},
+	{"σ", "ς", "Σ"},
+	{"ας", "ΑΣ", "ασ"},
+	{"Å", "Å", "Å", "å", "å"},
+	{"K", "k", "K"},
+	{"ǰ", "J̌", "ǰ"},
+	{"ﬁsh", "fish", "FISH"},
+	{"ß", "ss", "ẞ", "SS"},
+	{"user", "USER", "User", "\"user\"", "\"us\\er\"", "\"USER\""},
+	{"ſ", "s", "S"},
+	{"µ", "μ", "Μ"},
+	{"ǆ", "ǅ", "Ǆ"},
+	{"q̣̇", "q̣̇", "Q̣̇"},
+	{"ṩ", "ṩ", "ṩ", "Ṩ"},
+	{"가", "가"},
+	{"a b", "\"a b\"", "\"A b\"", "\"a\\ b\""},
+	{"postmaster", "POSTMASTER", "poſtmaster"},
+}
+
+type c17DomClass struct {
+	name string
+	doms []string
+}
+
+// domains by what the normalisation makes of them
+var c17DomClasses = []c17DomClass{
+	{"valid-u", []string{"example.org", "münchen.de", "ασ.gr", "a", "straße.example", "münchen.de"}},
+	{"valid-a", []string{"xn--mnchen-3ya.de", "xn--e1afmkfd.xn--p1ai", "xn--strae-oqa.example", "mail.xn--mnchen-3ya.de"}},
+	// A-labels that do not decode: overflow, bad digits, empty / dangling delimiter, non-ASCII inside
+	{"bad-punycode", []string{"xn--99999999999.example.org", "xn--a", "xn---", "xn--zz--.example", "xn--mnchen-3yaü.de", "xn--é", "xn--ı",
+		"ok.xn--9999999", "xn--a.xn--b", "xn--99999999999", "mail.xn--99999999999.example.org", "xn--mnchen-3yA9.de", "xn--!", "xn--a-.b"}},
+	// code points no host name may contain
+	{"disallowed", []string{"exa mple.org", "a\u0000b", "ex ample.org", "a\\b.org", "a,b", "-.-", "☃.net", "́a.org", "a‍b.org",
+		"bad!.org", "<>.org", "é́.org", "�.org", "a­b.org", "\U000e0001.org", "A̸.ORG"}},
+	{"over-long", []string{"a" + strings.Repeat("b", 63) + ".org", "xn--" + strings.Repeat("a", 70), strings.Repeat("é", 40) + ".de",
+		strings.Repeat(strings.Repeat("a", 30)+".", 9) + "org", "xn--" + strings.Repeat("9", 30) + ".org"}},
+	{"empty-label", []string{"a..b", ".a", "a.", ".", "..", "a...", "xn--", "xn--.", "xn--.org", ".xn--a", "a..xn--99999999999"}},
+	{"literal", []string{"[127.0.0.1]", "[IPv6:::1]", "[bad", "[xn--9999]", "[XN--99999999999.1]"}},
+}
+
+// another spelling of a domain (same name, another name, or another class altogether)
+func c17DomRespell(r *vh.Rng, cl c17DomClass, d string) string {
+	switch r.Intn(12) {
+	case 0, 1, 2, 3:
+		return d
+	case 4:
+		return asciiUpper(d)
+	case 5:
+		return asciiRandCase(r, d)
+	case 6:
+		return strings.ToUpper(d)
+	case 7:
+		return norm.NFD.String(d)
+	case 8:
+		if strings.HasSuffix(d, ".") {
+			return strings.TrimSuffix(d, ".")
+		}
+		return d + "."
+	case 9:
+		if u, err := idna.ToUnicode(asciiLowerStr(d)); err == nil && r.Bool() {
+			return u
+		}
+		if a, err := idna.ToASCII(d); err == nil {
+			return a
+		}
+		return caseVariant(r, d)
+	case 10:
+		return cl.doms[r.Intn(len(cl.doms))]
+	default:
+		o := c17DomClasses[r.Intn(len(c17DomClasses))]
+		return o.doms[r.Intn(len(o.doms))]
+	}
+}
+
+// c17KeyPair: two addresses built from one local-part row and one domain class
+func c17KeyPair(out *vh.Out, r *vh.Rng) (string, string) {
+	row := c17LocalRows[r.Intn(len(c17LocalRows))]
+	m1, m2 := row[r.Intn(len(row))], row[r.Intn(len(row))]
+	switch r.Intn(8) {
+	case 0:
+		m2 = m1
+	case 1: // a respelling of the whole local part
+		m2 = r.Pick(norm.NFD.String(m1), norm.NFC.String(m1), strings.ToUpper(m1), strings.ToLower(m1), strings.ToTitle(m1), caseVariant(r, m1))
+	case 2: // the row inside a longer local part
+		pre, suf := r.Pick("", "x", "a.", "σ"), r.Pick("", "y", "+tag", ".z", "σ")
+		m1, m2 = pre+m1+suf, pre+m2+suf
+	}
+	cl := c17DomClasses[r.Intn(len(c17DomClasses))]
+	if r.Chance(45) {
+		cl = c17DomClasses[2+r.Intn(2)] // bad punycode / disallowed: where the domain normalisation can fail
+	}
+	d1 := cl.doms[r.Intn(len(cl.doms))]
+	if len(d1) > 80 && !r.Chance(20) {
+		d1 = cl.doms[0] // the very long ones make very long op lines: keep them rare
+	}
+	d2 := c17DomRespell(r, cl, d1)
+	if len(d2) > 80 && len(d1) <= 80 {
+		d2 = d1
+	}
+	out.Stat("keypair.class." + cl.name)
+	a, b := m1+"@"+d1, m2+"@"+d2
+	// malformed on one side: the bare local part against "local@<a domain that normalises to nothing>", a
+	// missing local part, a missing domain
+	switch r.Intn(14) {
+	case 0:
+		a = m1
+		b = m2 + "@" + r.Pick(".", "xn--", "xn--.", "..", "XN--")
+		out.Stat("keypair.shape.bare-vs-empty-domain")
+	case 1:
+		a = m1
+		out.Stat("keypair.shape.bare")
+	case 2:
+		a, b = "@"+d1, "@"+d2
+		out.Stat("keypair.shape.no-local")
+	case 3:
+		a, b = m1+"@", m2+"@"
+		out.Stat("keypair.shape.no-domain")
+	case 4:
+		a, b = m1+"@"+d1+"@"+d1, m2+"@"+d1+"@"+d2
+		out.Stat("keypair.shape.two-at")
+	default:
+		out.Stat("keypair.shape.plain")
+	}
+	return a, b
+}
+
+func c17ErrTag(err error) string {
+	if err != nil {
+		return "err"
+	}
+	return "ok"
+}
+
+// c17KeyPairCase: the pair through the Equal-vs-key oracle (c17Strings), the Equal / ForLookup models, and the
+// error-branch reading of the property: when the domain cannot be normalised the key is one total function of
+// the whole string on both sides, so Equal is decided by the keys there too
+func c17KeyPairCase(out *vh.Out, r *vh.Rng) {
+	a, b := c17KeyPair(out, r)
+	_, ea := ForLookup(a)
+	_, eb := ForLookup(b)
+	out.Stat("keypair.keys." + c17ErrTag(ea) + "-" + c17ErrTag(eb))
+	if a != b {
+		out.Stat(fmt.Sprintf("keypair.equal.%v", Equal(a, b)))
+	}
+	c17Strings(out, a, b)
+	c17Strings(out, b, a)
+	// the two domains alone: dns.Equal <=> same dns.ForLookup key
+	_, da := c17SplitAt(a)
+	_, db := c17SplitAt(b)
+	c17Strings(out, da, db)
+	c17Op(out, "equal", a, b)
+	if r.Chance(30) {
+		if r.Chance(15) {
+			c17Op(out, "dnsequal", da, db)
+		} else {
+			c17Op(out, r.Pick("forlookup", "forlookup", "cleandomain", "tounicode", "toascii", "valid"), r.Pick(a, b))
+		}
+	}
+	c17NoCrash(out, a, b)
+}
+
+// ---- byte-level inputs: Go strings are byte strings (round 8) ----
+
+// pieces that are not well-formed UTF-8: lone continuation bytes, Latin-1 / Windows-1252 letters, bytes that
+// never occur (C0 C1 F5..FF), overlong forms, surrogates, beyond U+10FFFF, truncated sequences
+var c17BadBytes = []string{"\x80", "\xbf", "\xe9", "\xfc", "\xff", "\xfe", "\xa0", "\x9f", "\x85", "\xd1", "\xc0", "\xc1", "\xf5",
+	"\xc0\x80", "\xc1\xbf", "\xc0\xaf", "\xe0\x80\x80", "\xe0\x9f\xbf", "\xf0\x80\x80\x80", "\xf0\x8f\xbf\xbf", "\xed\xa0\x80", "\xed\xbf\xbf",
+	"\xed\xa0\xbd\xed\xb8\x80", "\xc3", "\xe2\x82", "\xe2", "\xf0\x9f\x98", "\xf0\x9f", "\xf0", "\xf4\x90\x80\x80", "\xf8\x88\x80\x80\x80",
+	"\xc3\x28", "\xe2\x28\xa1", "\x80\x80", "\xe9\xe8"}
+
+var c17ASCIIPieces = []string{"a", "Z", "caf", "test", "user", "@", "@", ".", "xn--", "example.org", "\"", "\\", " ", "-", "0", "\x7f", "\x00", "postmaster"}
+
+var c17GoodPieces = []string{"é", "\u0080", "߿", "ࠀ", "￿", "\U00010000", "\U0010ffff", "�", "ÿ", "́", "σ"}
+
+// an arbitrary byte string; most of them have no well-formed non-ASCII character at all
+func c17ByteString(r *vh.Rng) string {
+	var b strings.Builder
+	good := r.Chance(30)
+	for k := r.Intn(6); k >= 0; k-- {
+		switch x := r.Intn(100); {
+		case x < 45:
+			b.WriteString(c17BadBytes[r.Intn(len(c17BadBytes))])
+		case x < 85 || !good:
+			b.WriteString(c17ASCIIPieces[r.Intn(len(c17ASCIIPieces))])
+		default:
+			b.WriteString(c17GoodPieces[r.Intn(len(c17GoodPieces))])
+		}
+	}
+	return b.String()
+}
+
+// Latin-1 spelling of a string (one byte per code point below U+0100, others kept)
+func c17Latin1(s string) string {
+	var b []byte
+	for _, ch := range s {
+		if ch < 0x100 {
+			b = append(b, byte(ch))
+		} else {
+			b = append(b, string(ch)...)
+		}
+	}
+	return string(b)
+}
+
+// an address-shaped byte string: ill-formed bytes in the local part and / or the domain of an otherwise
+// ordinary address
+func c17ByteAddr(r *vh.Rng) string {
+	m := r.Pick("caf", "user", "test", "a", "rené", "ünïcode", "x_y", "first.last", "\"a b\"", "")
+	d := r.Pick("example.org", "a", "münchen.de", "xn--mnchen-3ya.de", "XN--MNCHEN-3YA.de", "xn--99999999999.org", "[127.0.0.1]", "bücher.example")
+	ins := func(s string) string {
+		p := r.Intn(len(s) + 1)
+		for !utf8.RuneStart(append([]byte(s), 0)[p]) {
+			p--
+		}
+		return s[:p] + c17BadBytes[r.Intn(len(c17BadBytes))] + s[p:]
+	}
+	switch r.Intn(6) {
+	case 0, 1, 2:
+		if r.Chance(30) {
+			m = c17Latin1(m)
+		}
+		if utf8.ValidString(m) {
+			m = ins(m)
+		}
+		if r.Chance(50) {
+			m = asciiOnly(m) // nothing but ASCII and ill-formed bytes
+		}
+	case 3:
+		d = ins(d)
+	case 4:
+		m, d = ins(m), ins(d)
+	default:
+		d = c17Latin1(d)
+		if utf8.ValidString(d) {
+			d = ins(d)
+		}
+	}
+	return m + "@" + d
+}
+
+// drops the well-formed non-ASCII characters of s, keeps ASCII and ill-formed bytes
+func asciiOnly(s string) string {
+	var b []byte
+	for i := 0; i < len(s); {
+		ch, w := utf8.DecodeRuneInString(s[i:])
+		if ch < 0x80 || (ch == utf8.RuneError && w == 1) {
+			b = append(b, s[i:i+w]...)
+		}
+		i += w
+	}
+	return string(b)
+}
+
+var c17ByteFns = []string{"isascii", "isascii", "toascii", "toascii", "tounicode", "forlookup", "split", "quote", "unquote", "cleandomain", "dnsforlookup", "valid"}
+
+// c17ByteCase: one byte string through the byte-level oracles of c17Strings (IsASCII <=> every byte < 0x80,
+// ToASCII's result is ASCII, Equal <=> same key ...) and through the models (ops carry hex bytes)
+func c17ByteCase(out *vh.Out, r *vh.Rng) {
+	var s string
+	if r.Bool() {
+		s = c17ByteString(r)
+	} else {
+		s = c17ByteAddr(r)
+	}
+	t := s
+	switch r.Intn(4) {
+	case 0:
+		t = c17ByteString(r)
+	case 1:
+		t = strings.ToValidUTF8(s, "�") // same code points for Go's range, other bytes
+	case 2:
+		t = asciiUpper(s)
+	}
+	if utf8.ValidString(s) {
+		out.Stat("bytes.wellformed")
+	} else if asciiOnly(s) == s {
+		out.Stat("bytes.illformed.no-other-non-ascii")
+	} else {
+		out.Stat("bytes.illformed.mixed")
+	}
+	c17Op(out, c17ByteFns[r.Intn(len(c17ByteFns))], s)
+	if m, d := c17SplitAt(s); d != "" {
+		c17Op(out, "isascii", r.Pick(m, d))
+		c17Strings(out, m, d)
+	}
+	if r.Chance(40) {
+		c17Op(out, r.Pick("equal", "dnsequal"), s, t)
+	}
+	c17Strings(out, s, t)
+	c17Strings(out, t, s)
+	c17NoCrash(out, s, t)
 }
 
 func c17NoCrash(out *vh.Out, s, t string) {
@@ -1053,6 +1415,17 @@ func c17Replay(out *vh.Out, op string) {
 		c17CheckDistinct(out, vh.UnhexRunes(toks[2]), vh.UnhexRunes(toks[3]))
 	case "crash":
 		c17NoCrash(out, string(vh.UnhexBytes(toks[2])), string(vh.UnhexBytes(toks[3])))
+	case "b":
+		args := []string{}
+		for _, t := range toks[3:] {
+			args = append(args, string(vh.UnhexBytes(t)))
+		}
+		if len(args) == 0 {
+			return
+		}
+		c17Op(out, toks[2], args...)
+		c17Strings(out, args[0], args[len(args)-1])
+		c17Strings(out, args[len(args)-1], args[0])
 	default:
 		args := []string{}
 		for _, t := range toks[2:] {
@@ -1081,6 +1454,7 @@ func TestVerifC17(t *testing.T) {
 		return
 	}
 	r := vh.NewRng(vh.Seed() + 17)
+	r8 := vh.NewRng(vh.Seed() + 1708)
 	n := vh.N(3000)
 	fns1 := []string{"split", "unquote", "quote", "isascii", "toascii", "tounicode", "forlookup", "cleandomain", "dnsforlookup", "valid"}
 	for i := 0; i < n; i++ {
@@ -1124,5 +1498,16 @@ func TestVerifC17(t *testing.T) {
 		}
 		c17NoCrash(out, string(bs), s)
 		c17NoCrash(out, s, t)
+		// round 8: every domain class x every local-part row through the Equal-vs-key oracle; byte strings
+		// (ill-formed UTF-8 included) through the byte-level oracles. Own generators (forked): the cases above
+		// stay what they were for a given seed.
+		if i%6 == 0 {
+			c17KeyPairCase(out, r8)
+		}
+		if i%6 == 3 {
+			c17ByteCase(out, r8)
+		}
+		// the uniformly random bytes too
+		c17Strings(out, string(bs), string(bs))
 	}
 }
